@@ -218,8 +218,11 @@ theorem foldlM_wu_frame (before : Word) : ∀ (js : List Nat) (s s' : State),
     · rename_i s1 h1
       exact (wuCycle_frame h1).trans (ih s1 s' h)
 
-theorem wusCycle_frame {s s' : State} (h : wusCycle s = .ok s') : Frame s s' :=
+theorem wusCycleB_frame {s s' : State} {before : Word} (h : wusCycleB s before = .ok s') : Frame s s' :=
   foldlM_wu_frame _ _ s s' h
+
+theorem wusCycle_frame {s s' : State} (h : wusCycle s = .ok s') : Frame s s' :=
+  wusCycleB_frame h
 
 /-- the loops over the execute units: `n` units cycle, at most `n` instructions run -/
 def Loop (n : Nat) (s s' : State) : Prop :=
@@ -440,7 +443,7 @@ theorem cycleM_tick {app : App} {s s' : State} {ev : Event} (h : cycleM app s = 
             · split at h
               · cases h
               · rename_i s5 h5
-                have f5 := wusCycle_frame h5
+                have f5 := wusCycleB_frame h5
                 have l5 : s5.eus.length = s.eus.length := f5.len.trans (f4.1.trans l3)
                 have lo5 : s.executed ≤ s5.executed := by rw [f5.exe]; have := f4.2.1; omega
                 have hi5 : s5.executed ≤ s.executed + s.eus.length := by rw [f5.exe]; have := f4.2.2.1; omega
